@@ -91,6 +91,8 @@ fn parent_doc(dm: &str, bid: u32) -> String {
   <transition event="cmd.21"><send event="md.a21" targetexpr="'#_' + 'kid'" delayexpr="'15ms'"><param name="p" expr="v + 1"/></send></transition>
   <transition event="cmd.22"><send event="md.a22" target="#_scxml_{bid}" delay="10ms"/><send event="bar.a" delay="150ms"/></transition>
   <transition event="cmd.23"><send event="m.a23" targetexpr="'#_scxml_' + _sessionid"><param name="p" expr="v"/></send></transition>
+  <transition event="cmd.24"><send event="m.a24" target="#_scxml_{bid}"><param name="p" expr="v"/><param name="bad" expr="nosuch_variable"/><param name="q" expr="w"/></send></transition>
+  <transition event="cmd.25"><send event="m.a25" target="#_kid"><param name="bad" location="nosuch_variable"/><param name="q" expr="w"/></send></transition>
   <transition event="cmd.11"><send event="m.fenceA"/></transition>
   <transition event="cmd.12"><send event="m.fenceB" target="#_scxml_{bid}"/></transition>
   <transition event="cmd.13"><send event="m.fenceC" target="#_kid"/></transition>
@@ -191,7 +193,7 @@ fn routing(dm: &str, rep: &mut Report) {
             std::thread::sleep(Duration::from_millis(5));
         }
     }
-    for k in [1, 2, 3, 4, 5, 6, 7, 8, 9, 10, 14, 15, 16, 17, 18, 23, 11, 12, 13, 19] {
+    for k in [1, 2, 3, 4, 5, 6, 7, 8, 9, 10, 14, 15, 16, 17, 18, 23, 24, 25, 11, 12, 13, 19] {
         a.send(&format!("cmd.{}", k));
         sent += 1;
         wait_stable(&mut a, sent);
@@ -304,6 +306,9 @@ fn routing(dm: &str, rep: &mut Report) {
         Want { skip_invokeid: false, name: "m.a16", session: 'B', internal: false, origin_of: Some('A'), sendid: None, data: Some(map(&[("v", V::Int(5)), ("q", V::Str("str".into()))])), invokeid: false },
         Want { skip_invokeid: false, name: "mi.a17", session: 'A', internal: true, origin_of: None, sendid: None, data: Some(map(&[("w", V::Str("str".into())), ("v", V::Int(5)), ("z", V::Int(6))])), invokeid: false },
         Want { skip_invokeid: false, name: "m.a18", session: 'C', internal: false, origin_of: Some('A'), sendid: None, data: Some(map(&[("w", V::Str("str".into())), ("p", V::Int(5)), ("q", V::Int(7))])), invokeid: false },
+        // a <param> whose evaluation fails is left out (error.execution); the event is sent with the others
+        Want { skip_invokeid: false, name: "m.a24", session: 'B', internal: false, origin_of: Some('A'), sendid: None, data: Some(map(&[("p", V::Int(5)), ("q", V::Str("str".into()))])), invokeid: false },
+        Want { skip_invokeid: false, name: "m.a25", session: 'C', internal: false, origin_of: Some('A'), sendid: None, data: Some(map(&[("q", V::Str("str".into()))])), invokeid: false },
         // nested payloads keep their structure, also when relayed by the receiver
         Want { skip_invokeid: false, name: "relay.a14", session: 'B', internal: false, origin_of: Some('A'), sendid: None, data: Some(map(&[("o", nested.clone())])), invokeid: false },
         Want { skip_invokeid: false, name: "relay.a15", session: 'C', internal: false, origin_of: Some('A'), sendid: None, data: Some(map(&[("o", nested.clone())])), invokeid: false },
